@@ -246,19 +246,21 @@ pub fn repo_init(store: &Arc<SimStore>, actor: u32, key: &KeyMat, cfg: &RepoCfg)
 }
 
 pub fn repo_init_on(repo: Repository<()>, key: &KeyMat, cfg: &RepoCfg) -> RusticResult<RepoOpen> {
-    if cfg.version == 1 {
-        // `init` always starts from a version-2 config and refuses the "downgrade"; version-1
-        // repositories are created the way restic-compatible tools do: with a ready config file
-        let id = hex::encode(Rng::new(key.encrypt[0] as u64 ^ 0x1d).bytes(32));
-        let mut config: rustic_core::repofile::ConfigFile =
-            serde_json::from_value(serde_json::json!({"version": 1, "id": id, "chunker_polynomial": format!("{FIXED_POLY:x}")})).expect("config json");
-        let mut opts = cfg.to_opts();
-        opts.set_version = None;
-        opts.apply(&mut config)?;
-        repo.init_with_config(&key.creds(), &KeyOptions::default(), config)
-    } else {
-        repo.init(&key.creds(), &KeyOptions::default(), &cfg.to_opts())
-    }
+    repo.init_with_config(&key.creds(), &KeyOptions::default(), config_for(key, cfg)?)
+}
+
+/// The config file of a new repository: id and chunker polynomial come from the key seed (so they
+/// do not depend on how much OS randomness some thread has consumed), everything else is applied
+/// and validated by the library's own `ConfigOptions::apply`. (`Repository::init` itself — random
+/// polynomial, version-2 start — is exercised by C18.)
+pub fn config_for(key: &KeyMat, cfg: &RepoCfg) -> RusticResult<rustic_core::repofile::ConfigFile> {
+    let mut r = Rng::new(u64::from_le_bytes(key.encrypt[..8].try_into().unwrap()) ^ 0x1d);
+    let id = hex::encode(r.bytes(32));
+    let poly = crate::gf2::random_poly(&mut r);
+    let mut config: rustic_core::repofile::ConfigFile =
+        serde_json::from_value(serde_json::json!({"version": cfg.version, "id": id, "chunker_polynomial": format!("{poly:x}")})).expect("config json");
+    cfg.to_opts().apply(&mut config)?;
+    Ok(config)
 }
 
 pub fn repo_open(store: &Arc<SimStore>, actor: u32, key: &KeyMat) -> RusticResult<RepoOpen> {
